@@ -657,3 +657,69 @@ Definition check_case (c : case) : N :=
   | COpProto p read =>
       verdict (op_res_eqb (read_operation p) read) (okb c) false 10
   end.
+
+(** * Definitions used in the statements of Props/C16.v *)
+(** The implementation's proto differs from [view_to_proto v] only in the iteration order of
+    the two hash-ordered collections. *)
+Definition with_hash_order (h : list bytes) (w : list (bytes * bytes)) (p : p_view) : p_view :=
+  mk_pview h (pv_wc_commit_id p) w (pv_bookmarks p) (pv_local_tags p) (pv_remote_views p)
+           (pv_git_refs p) (pv_git_head_legacy p) (pv_git_head p) (pv_migrated p) (pv_git_heads p).
+
+
+Definition with_attr_order (a : list (bytes * bytes)) (p : p_operation) : p_operation :=
+  mk_pop (po_view_id p) (po_parents p)
+         (match po_metadata p with
+          | Some m => Some (mk_pmd (pm_start m) (pm_end m) (pm_description m) (pm_hostname m)
+                                   (pm_username m) (pm_is_snapshot m) (pm_workspace m) a)
+          | None => None
+          end)
+         (po_predecessors p) (po_stores p).
+
+
+(** The domain of the encoding theorems (every byte below 256, every length below 2^64,
+    timestamps within i64 / i32), as a boolean. *)
+Definition lenb {A} (l : list A) : bool := N.of_nat (length l) <? 2 ^ 64.
+Definition bytes_wfb (b : bytes) : bool := forallb byteb b && lenb b.
+Definition target_wfb (t : target) : bool :=
+  forallb (fun o => match o with Some b => bytes_wfb b | None => true end) t && lenb t.
+Definition map_wfb {V} (f : V -> bool) (m : list (bytes * V)) : bool :=
+  forallb (fun kv => bytes_wfb (fst kv) && f (snd kv)) m && lenb m.
+Definition remote_ref_wfb (r : remote_ref) : bool := target_wfb (rr_target r).
+Definition remote_view_wfb (r : remote_view) : bool :=
+  map_wfb remote_ref_wfb (rv_bookmarks r) && map_wfb remote_ref_wfb (rv_tags r).
+Definition view_enc_wfb (v : view) : bool :=
+  forallb bytes_wfb (v_head_ids v) && lenb (v_head_ids v)
+  && map_wfb target_wfb (v_local_bookmarks v) && map_wfb target_wfb (v_local_tags v)
+  && map_wfb remote_view_wfb (v_remote_views v)
+  && map_wfb target_wfb (v_git_refs v) && map_wfb target_wfb (v_git_heads v)
+  && map_wfb bytes_wfb (v_wc_commit_ids v).
+Definition timestamp_wfb (t : timestamp) : bool :=
+  ((- 2 ^ 63 <=? ts_millis t) && (ts_millis t <? 2 ^ 63)
+   && (- 2 ^ 31 <=? ts_tz t) && (ts_tz t <? 2 ^ 31))%Z.
+Definition op_enc_wfb (o : operation) : bool :=
+  let m := op_meta o in
+  bytes_wfb (op_view_id o) && forallb bytes_wfb (op_parents o) && lenb (op_parents o)
+  && timestamp_wfb (md_start m) && timestamp_wfb (md_end m)
+  && bytes_wfb (md_description m) && bytes_wfb (md_hostname m) && bytes_wfb (md_username m)
+  && match md_workspace m with Some w => bytes_wfb w | None => true end
+  && map_wfb bytes_wfb (md_attributes m)
+  && match op_predecessors o with
+     | Some p => map_wfb (fun l => forallb bytes_wfb l && lenb l) p
+     | None => true
+     end.
+
+
+Definition case_ok (c : case) : Prop :=
+  match c with
+  | CView v w via _ read _ vid vid2 wid _ =>
+      (via = true -> wf_view v) /\ (wf_view v -> read = Ok v) /\ vid = vid2
+      /\ (vid = wid <-> v = w)
+  | CViewProto _ read =>
+      forall v, read = Ok v ->
+        targets_oddb (v_local_bookmarks v) = true /\ targets_oddb (v_local_tags v) = true
+        /\ targets_oddb (v_git_refs v) = true /\ targets_oddb (v_git_heads v) = true
+  | COp o w _ read _ oid oid2 wid _ =>
+      (wf_op o -> read = Ok o) /\ oid = oid2 /\ (oid = wid <-> o = w)
+  | COpProto _ _ => True
+  end.
+
